@@ -10,6 +10,7 @@ package wsp
 //@ import "github.com/cnotch/xlog"
 //@ import "github.com/cnotch/ipchub/network/websocket"
 //@ import "github.com/cnotch/ipchub/av/format/rtp"
+//@ import "bytes"
 
 // ---- assumed contracts on dependencies (scoped to this package) -----------------------------------------
 //@ extern func (mu *sync.Mutex) Lock() ()
@@ -20,12 +21,17 @@ package wsp
 //@   requires held(mu)
 //@   modifies held(mu)
 //@   ensures !held(mu)
+// the buffer pool: ghostBool(b, "lent") says that buffer b was handed out by Get and not given back since - the
+// goroutine that got it owns it exclusively. Put of a buffer that is not lent (a second Put) would let the pool hand
+// the same buffer to two goroutines.
 //@ extern func (p *sync.Pool) Get() (x interface{})
 //@   modifies
 //@   fresh x
-//@   ensures typeIs(x, "*bytes.Buffer")
+//@   ensures typeIs(x, "*bytes.Buffer") && x.(*bytes.Buffer) != nil && ghostBool(x.(*bytes.Buffer), "lent")
 //@ extern func (p *sync.Pool) Put(x interface{}) ()
-//@   modifies
+//@   requires typeIs(x, "*bytes.Buffer") && ghostBool(x.(*bytes.Buffer), "lent")
+//@   modifies ghostBool(x.(*bytes.Buffer), "lent")
+//@   ensures !ghostBool(x.(*bytes.Buffer), "lent")
 //@ extern func (c websocket.Conn) Write(p []byte) (n int, err error)
 //@   modifies ghostInt(c, "wsmessages"), ghostInt(c, "lastlen")
 //@   ensures ghostInt(c, "wsmessages") == old(ghostInt(c, "wsmessages")) + 1 && ghostInt(c, "lastlen") == len(p)
@@ -62,7 +68,6 @@ package wsp
 // decimal counter value, not a secret: attaching it to a session is allowed only when it was opened by the same user on
 // the same path as the session's control channel (otherwise its owner would receive another user's media)
 //@ import "io"
-//@ import "bytes"
 //@ spec func wsPath(c websocket.Conn) string = uninterpreted
 //@ spec func wsUser(c websocket.Conn) string = uninterpreted
 //@ extern func (c websocket.Conn) Path() (p string)
@@ -98,3 +103,65 @@ package wsp
 //@   modifies all()
 //@   local session *Session
 //@   assert[call:setDataChannel] session != nil && session.conn != nil && wsPath(session.conn) == wsPath(wsc) && wsUser(session.conn) == wsUser(wsc)
+
+// ---- C13: the WSP control channel - every WebSocket message is one response assembled in a buffer this goroutine owns ----
+// (process defers the return of each request's buffer inside its loop; each buffer goes back to the pool exactly once,
+// and only a buffer still lent to this goroutine is rendered into or sent)
+//@ import "bufio"
+//@ import "time"
+//@ import "github.com/cnotch/ipchub/av/format/rtsp"
+//@ import "github.com/cnotch/ipchub/media"
+//@ import "github.com/cnotch/ipchub/stats"
+//@ import srtsp "github.com/cnotch/ipchub/service/rtsp"
+//@ global srtsp.ReadRequest readonly
+//@ global stats.WspConns readonly
+//@ extern func (l *xlog.Logger) Info(msg string, fields ...xlog.Field) ()
+//@   modifies
+//@ extern func (l *xlog.Logger) Warn(msg string, fields ...xlog.Field) ()
+//@   modifies
+//@ extern func (e error) Error() (s string)
+//@   modifies
+//@ extern func debug.Stack() (b []byte)
+//@   modifies
+//@ extern func time.Now() (t time.Time)
+//@   modifies
+//@ extern func (t time.Time) Add(d time.Duration) (r time.Time)
+//@   modifies
+//@ extern func (c websocket.Conn) SetReadDeadline(t time.Time) (err error)
+//@   modifies
+//@ extern func bytes.NewBufferString(s string) (b *bytes.Buffer)
+//@   modifies
+//@   fresh b
+//@ extern func bufio.NewReader(rd io.Reader) (r *bufio.Reader)
+//@   modifies
+//@   fresh r
+//@ extern func rtsp.ReadRequest(r *bufio.Reader) (req *rtsp.Request, err error)
+//@   modifies ghostAll("misc")
+//@   freshornil req
+//@   ensures err == nil ==> req != nil
+//@ extern func (resp *rtsp.Response) Write(w io.Writer) (err error)
+//@   modifies ghostAll("misc")
+//@ extern func (m *sync.Map) Delete(key interface{}) ()
+//@   modifies ghostAll("misc")
+//@ extern func (s *media.Stream) StopConsume(cid media.CID) ()
+//@   modifies ghostAll("misc")
+//@ extern func (c stats.Conns) Add() (n int64)
+//@   modifies ghostInt(c, "active")
+//@   ensures ghostInt(c, "active") == old(ghostInt(c, "active")) + 1
+//@ extern func (c stats.Conns) Release() (n int64)
+//@   modifies ghostInt(c, "active")
+//@   ensures ghostInt(c, "active") == old(ghostInt(c, "active")) - 1
+//@ func (s *Session) onRequest(req *rtsp.Request) (resp *rtsp.Response)
+//@   trusted
+//@   requires s != nil && req != nil
+//@   modifies s.url, s.path, s.rawSdp, s.sdp, s.aControl, s.vControl, s.aCodec, s.vCodec, s.transport, s.status, s.source, s.cid, s.paused, ghostAll("misc")
+//@   fresh resp
+//@ func (s *Session) process() ()
+//@   recovers
+//@   requires s != nil && s.conn != nil && s.svr != nil && s.logger != nil && !held(&s.lockW)
+//@   modifies all()
+//@   local buf *bytes.Buffer
+//@   loop 0: invariant s.conn != nil && s.svr != nil && s.logger != nil && !held(&s.lockW)
+//@   assert[call:Write] buf != nil && ghostBool(buf, "lent")
+//@   assert[call:ResponseTo] buf != nil && ghostBool(buf, "lent")
+//@   ensures s.closed && !held(&s.lockW)
